@@ -9,6 +9,7 @@ import sys
 from typing import Any, Dict, List, Tuple
 
 from spec_classes import Attr, spec_class, spec_property
+from spec_classes.types import KeyedList, KeyedSet
 from spec_classes.errors import FrozenInstanceError
 
 
@@ -109,6 +110,46 @@ def c_container_values_sharing():
     if r.engines["spare"] is d1.engines["spare"] or r.engines["spare"] is Fleet.__dict__.get("engines", {}).get("spare"):
         return "reset_engines() yields the class-level default's own Engine dict value"
     return None
+
+
+@spec_class(key="name", bootstrap=True)
+class KItem:
+    name: str
+    value: int = 0
+
+
+@spec_class(bootstrap=True)
+class Registry:
+    items: KeyedList[KItem, str] = KeyedList[KItem, str]()
+    members: KeyedSet[KItem, str] = KeyedSet[KItem, str]()
+
+
+def c_keyed_container_elements():
+    """whole-value routes with a keyed container that holds non-conforming elements or bare keys (C03): refused, or every
+    stored element is an instance of the element class"""
+    def offending(r):
+        return [e for a in ("items", "members") for e in getattr(r, a) if not isinstance(e, KItem)]
+    pools = {"items": [KeyedList([1, 2]), KeyedList(["a"]), KeyedList([KItem("k"), 3])], "members": [KeyedSet(["a"]), KeyedSet([1])]}
+    for attr, values in pools.items():
+        for v in values:
+            routes = (("Registry(%s=%r)" % (attr, v), lambda: Registry(**{attr: copy.copy(v)})),
+                      ("Registry().with_%s(%r)" % (attr, v), lambda: getattr(Registry(), "with_" + attr)(copy.copy(v))),
+                      ("r = Registry(); r.%s = %r" % (attr, v), lambda: _assign(Registry(), attr, copy.copy(v))),
+                      ("Registry().update(%s=%r)" % (attr, v), lambda: Registry().update(**{attr: copy.copy(v)})))
+            for label, route in routes:
+                try:
+                    r = route()
+                except (TypeError, ValueError):
+                    continue
+                bad = offending(r)
+                if bad:
+                    return "%s stored the non-conforming element %r in a KeyedList/KeyedSet of KItem" % (label, bad[0])
+    return None
+
+
+def _assign(o, a, v):
+    setattr(o, a, v)
+    return o
 
 
 def c_nothing_to_update():
@@ -227,7 +268,7 @@ def c_chain_through_unset_link():
 
 
 CHECKS = {"C01": [c_sharing, c_nested_failure, c_argument_container_untouched, c_container_values_sharing], "C06": [c_argument_container_untouched], "C02": [c_sharing, c_nothing_to_update, c_container_values_sharing], "C08": [c_sharing, c_reset_all, c_container_values_sharing], "C04": [c_nested_failure, c_failed_assignment_keeps_caches],
-          "C07": [c_nested_failure], "C05": [c_reset_all], "C11": [c_chain_through_unset_link, c_collection_invalidation, c_failed_assignment_keeps_caches]}
+          "C07": [c_nested_failure], "C03": [c_keyed_container_elements], "C05": [c_reset_all], "C11": [c_chain_through_unset_link, c_collection_invalidation, c_failed_assignment_keeps_caches]}
 
 REPLAY = '''#!/venv/bin/python
 # {prop} replay (additional corpus).  run: PYTHONPATH=/repo /venv/bin/python {path}      (exit 1 = the property is violated)
